@@ -172,6 +172,8 @@ where
     /// Initialize the radio for LoRa physical layer communications
     pub async fn init(&mut self) -> Result<(), RadioError> {
         self.cold_start = true;
+        // The reset pulse invalidates the mode tracked so far, also when the rest of init fails
+        self.radio_mode = RadioMode::Sleep;
         self.radio_kind.reset(&mut self.delay).await?;
         self.radio_kind.ensure_ready(self.radio_mode).await?;
         self.radio_kind.set_standby().await?;
